@@ -24,7 +24,10 @@ use serde_json::{json, Value};
 use std::collections::BTreeMap;
 use std::time::Instant;
 
+/// a single library call that does not return for this long (wall) is a hang
 pub const WATCHDOG_SECS: u64 = 20;
+/// whole-run cap (wall), however many calls it makes
+pub const RUN_CAP_SECS: u64 = 900;
 
 fn verif_dir() -> String {
     std::env::var("VERIF_DIR").unwrap_or_else(|_| ".".into())
@@ -43,7 +46,7 @@ pub fn report_hang(cfg: &Cfg, seed: u64, run: u64) -> ! {
     let _ = std::fs::create_dir_all(&dir);
     let path = format!("{dir}/{}-{}-{}-{}-hang.json", cfg.prop, cfg.scenario, seed, run);
     let doc = json!({"format": 1, "cfg": cfg.to_json(), "seed": seed, "run": run, "hang": true,
-        "violation": {"property": cfg.prop, "clause": format!("{}.terminates", cfg.prop), "site": "watchdog", "message": format!("run exceeded {WATCHDOG_SECS}s of wall time")}});
+        "violation": {"property": cfg.prop, "clause": format!("{}.terminates", cfg.prop), "site": "watchdog", "message": format!("a library call did not return within {WATCHDOG_SECS}s of wall time (or the run exceeded {RUN_CAP_SECS}s)")}});
     let _ = std::fs::write(&path, serde_json::to_string_pretty(&doc).unwrap());
     println!("VIOLATION property={} replay={}", cfg.prop, path);
     std::process::exit(1);
